@@ -404,6 +404,8 @@ func (g *storageGen) next() (sdk.Msg, map[string]interface{}, func(pre, post stS
 		var expires int64
 		if r.Intn(3) == 0 {
 			expires = c.H + []int64{14400, 14399, 20000, 500000, 1, 5256000, 100}[r.Intn(7)]
+		} else if r.Intn(8) == 0 {
+			expires = -int64(1 + r.Intn(5)) // non-positive Expires is plan-paid
 		}
 		note := `{"n":1}`
 		if r.Intn(20) == 0 {
